@@ -202,6 +202,10 @@ def ddl_for(rule, dialect, extra_fields=""):
     return sql.SqlFactory(cid, "t", sql.SQL_NAME_TO_DIALECT_MAP[dialect]).create_table_statement()
 
 
+SHAPE_CID = 'd,format,delimited\nf,id,,,,Integer,0...99\nf,select,,x,...20,Text\nf,amount,,,,Decimal,-99.999...123.45\nf,kind,,x,2,Choice,"aa,bb"\nf,born,,,,DateTime,DD.MM.YYYY\nf,Table,,x,...5,Text\nf,weight,,,,Decimal,-12345...12345\n'
+HISTORY_CID = 'd,format,delimited\n' + "".join("f,%s,,x,,Text\n" % n for n in ("customer_id", "index", "year", "order", "level", "comment", "uid", "number", "percent", "text", "value", "key", "user", "date", "select"))
+
+
 def unit_c19_table():
     def run(ctx):
         import re
@@ -235,7 +239,7 @@ def unit_c19_table():
             for d in DIALECTS: yield d
         def shape_check(d):
             from cutplace import interface, sql
-            cid = interface.create_cid_from_string('d,format,delimited\nf,id,,,,Integer,0...99\nf,select,,x,...20,Text\nf,amount,,,,Decimal,-99.999...123.45\nf,kind,,x,2,Choice,"aa,bb"\nf,born,,,,DateTime,DD.MM.YYYY\nf,Table,,x,...5,Text\nf,weight,,,,Decimal,-12345...12345\n')
+            cid = interface.create_cid_from_string(SHAPE_CID)
             ddl = sql.SqlFactory(cid, "t", sql.SQL_NAME_TO_DIALECT_MAP[d]).create_table_statement()
             lines = [l.strip().rstrip(",") for l in ddl.splitlines()[1:-1]]
             names = [l.split(" ")[0] for l in lines]
@@ -245,9 +249,33 @@ def unit_c19_table():
             if "(5, 0)" not in lines[6] and "(5)" not in lines[6]: return {"expected": "decimal column for -12345...12345 with 5 digits and 0 fractional digits", "observed": lines[6]}
             if "(6, 3)" not in lines[2]: return {"expected": "decimal column with 6 total and 3 fractional digits", "observed": lines[2]}
             if "(20)" not in lines[1] or "(2)" not in lines[3]: return {"expected": "text columns with their upper length limit 20 / 2", "observed": (lines[1], lines[3])}
+            # limits of multi-item rules whose items are not in ascending order (the overall limits are the minimum / maximum over all items)
+            cid2 = interface.create_cid_from_string('d,format,delimited\nf,code,,,,Integer,"40000...50000, 1...10"\nf,title,,x,"20...30, 1...5",Text\nf,low,,,,Integer,"5...9, -40000...-30000"\n')
+            l2 = [l.strip().rstrip(",") for l in sql.SqlFactory(cid2, "t", sql.SQL_NAME_TO_DIALECT_MAP[d]).create_table_statement().splitlines()[1:-1]]
+            if "(30)" not in l2[1]: return {"expected": "text column of length 30 for the length '20...30, 1...5'", "observed": l2[1]}
+            for line, (lo, hi) in ((l2[0], (1, 50000)), (l2[2], (-40000, 9))):
+                t = line.split(" ")[1].split("(")[0]
+                if t in CAP and not (CAP[t][0] <= lo and hi <= CAP[t][1]): return {"expected": "a %s type able to store %d and %d" % (d, lo, hi), "observed": line}
             return None
         r2 = sweep("C19/table/statement shape per dialect", shape_cases(), shape_check, "bounded", "one 7-field CID (keyword names in lower and mixed case, empty flags, decimal rules with and without fractional digits, lengths) x 4 dialects", function="sql.SqlFactory", unit="C19.table")
         res = [r1, r2]
+        # the statement of a dialect does not depend on which statements were generated before it in the same process
+        def history_check(d):
+            import subprocess, sys, os, cutplace
+            from cutplace import interface, sql
+            root = os.path.dirname(os.path.dirname(os.path.abspath(cutplace.__file__)))
+            code = ("import sys, warnings; warnings.simplefilter('ignore'); sys.path.insert(0, %r)\nfrom cutplace import interface, sql\n"
+                    "cid = interface.create_cid_from_string(%r)\nsys.stdout.write(sql.SqlFactory(cid, 't', sql.SQL_NAME_TO_DIALECT_MAP[%r]).create_table_statement())" % (root, HISTORY_CID, d))
+            fresh = subprocess.run([sys.executable, "-W", "ignore", "-c", code], capture_output=True, text=True, timeout=120)
+            if fresh.returncode != 0: return {"expected": "a statement from a fresh process", "observed": fresh.stderr[-400:]}
+            cid = interface.create_cid_from_string(HISTORY_CID)
+            for other in DIALECTS:
+                if other != d: sql.SqlFactory(cid, "t", sql.SQL_NAME_TO_DIALECT_MAP[other]).create_table_statement()
+            later = sql.SqlFactory(cid, "t", sql.SQL_NAME_TO_DIALECT_MAP[d]).create_table_statement()
+            if later != fresh.stdout: return {"expected": "the %s statement of a fresh process: %r" % (d, fresh.stdout), "observed": "after generating the other dialects' statements first: %r" % later}
+            return None
+        res.append(sweep("C19/table/a dialect's statement does not depend on statements generated before", shape_cases(), history_check, "bounded",
+                         "4 dialects: statement in a fresh process vs after the three other dialects in one process; field names that are keywords in only some dialects", function="sql.SqlFactory", unit="C19.table"))
         # K-8 witnesses
         w = []
         try:
